@@ -114,7 +114,7 @@ PROPS = {
         'trusted': ['harness/wire_runner.go'],
     },
     'C06': {
-        'suites': [('codec', 8000, 400000), ('cenc', 3000, 100000), ('ctopic', 8000, 400000), ('cmsg', 2000, 50000)],
+        'props': ['C06', 'C06t'], 'suites': [('codec', 8000, 400000), ('cenc', 3000, 100000), ('ctopic', 8000, 400000), ('cmsg', 2000, 50000)],
         'rule': 'codec: valid packets of all 15 types and all properties encoded by an independent encoder, CONNECT+following packets on one reader, truncation at every offset, remaining length +/-/huge, non-canonical and 5-9 byte varints, '
                 '7 property mutations, 4 UTF-8 mutations, flag flips, trailing bytes, byte flip/insert/delete, version mismatch, raw bytes, under v3.1/3.1.1/5; compared: every decoded field, consumed bytes, TotalBytes, re-encoding and its re-decode, error class, allocation. '
                 'cenc: encode side; ctopic: the four validity predicates on strings over {a,b,/,+,#,$,NUL,U+FFFD,...}; cmsg: Message.TotalBytes vs encoded PUBLISH; non-trivial = at least two bytes / a valid packet',
@@ -122,13 +122,17 @@ PROPS = {
         'trusted': ['harness/codec.go independent encoder'],
     },
     'C09': {
-        'props': ['C09', 'C09e'], 'suites': [('rsub', 600, 40000), ('runack', 600, 40000), ('penc', 1500, 60000), ('crash', 24, 1500)],
+        'props': ['C09', 'C09e', 'C09s'], 'suites': [('rsub', 600, 40000), ('runack', 600, 40000), ('rsess', 1000, 40000), ('penc', 1500, 60000), ('crash', 24, 1500)],
         'rule': 'crash: broker-level histories (3 clients, 6-24 steps: persistent sessions, subscriptions with all options, unsubscribes, QoS1/2 publishes to online/offline subscribers, partial ack flows) on the redis backend over an in-process RESP stand-in '
                 'that journals every write command; for EVERY prefix of the journal a fresh broker is started on the prefix state (start-up must succeed) and sessions, subscriptions, redelivery and QoS2 duplicate recognition are inspected against what had been acknowledged. '
                 'rsub/runack: store-level histories incl. restarts against the extracted models. '
                 'penc: queue elements (PUBLISH with every optional field, strings of 0/255/256/65534/65535 bytes, payloads of 65534..200000 bytes in 1/12, PUBREL) and subscriptions encoded by queue.Elem.Encode / EncodeSubscription '
                 'and decoded again, plus 2-6 mutations (truncate, bit flip, byte set, append, insert/delete, raw bytes) decoded by the real decoders; compared byte for byte and field for field with Model/PersistEnc.v; '
-                'oracle: decode(encode v) = v on the implementation',
+                'oracle: decode(encode v) = v on the implementation. '
+                'rsess: histories (3-25 ops) of Set/Get/Remove/SetSessionExpiry/Iterate on the mem session store and on the redis session store over the RESP stand-in (with restarts of the store object), '
+                '6 client ids incl. the empty one and ids that look like keys ("sub:1", "session:x"), wills with every optional field; every answer compared with the abstract machine Model/SessStore.v '
+                '(a missing session must be answered none, never an empty session). crash: at every other cut the stored connect times are two hours old (a long-running broker): sessions must still resume; '
+                'the session gauges of the live broker must not have wrapped',
         'assumptions': ['the RESP stand-in (harness/resp.go) implements the commands used (hset hmget hgetall hdel del llen lrange lrem lset rpush scan ping select auth ...) as redis documents them',
                         'crash points are between storage commands of quiescent steps; a crash while two handlers interleave their commands is not enumerated'],
         'trusted': ['harness/resp.go', 'harness/redis.go scripted client'],
